@@ -364,7 +364,9 @@ class World:
                         os.symlink(os.path.relpath(str(it.data_path), str(data.path)), str(d / 'input_link'))
                         break
             if kind == 'continues':
-                # resumable: step files survive a failed attempt and are seen by the next one
+                # resumable: step files survive a failed attempt and are seen by the next one; a checkpoint file exists only
+                # while the work is unfinished
+                (d / 'checkpoint').write_text('in progress')
                 steps = sorted(p.name for p in d.glob('step*'))
                 (d / f'step{len(steps)}').write_text('done')
                 if fault == 'raise_partial':
@@ -379,6 +381,7 @@ class World:
                 raise Fault('dir raise_partial')
             (d / 'term.json').write_bytes(raw)
             if kind == 'continues':
+                (d / 'checkpoint').unlink()
                 data.finished()
             return data
         if kind == 'inmemory_empty':
